@@ -1091,6 +1091,50 @@ func (h *supH) directedLateLookup(emit func(string)) {
 	}
 }
 
+// directedReplicatedDependent: ordered shutdown where the dependents of `d` are two replicas of one
+// replicated process (same process name, different replica names): `d` may be signalled only when
+// both are gone. One of them ignores the signal and dies only at its kill timeout.
+func (h *supH) directedReplicatedDependent(emit func(string)) {
+	for rep := 0; rep < 3; rep++ {
+		for _, slow := range []string{"x", "y"} {
+			emit("sup coarse 1")
+			emit("proc d no 0 - 0 0 0 -")
+			for _, n := range []string{"x", "y"} {
+				if n == slow {
+					emit(fmt.Sprintf("proc %s no 0 g 40 0 ign d:t", n))
+				} else {
+					emit(fmt.Sprintf("proc %s no 0 g 0 0 0 d:t", n))
+				}
+			}
+			emit("deps x d:t")
+			emit("deps y d:t")
+			emit("init")
+			emit("s call 0 run")
+			h.drain(emit)
+			emit("s call 1 shutdown")
+			h.drain(emit)
+			for i := 0; i < 8 && !h.dead; i++ {
+				if h.killArmed(slow) {
+					emit("s killto " + slow)
+					h.drain(emit)
+					continue
+				}
+				al := h.aliveNames()
+				if len(al) == 0 {
+					break
+				}
+				emit(fmt.Sprintf("s exit %s 0", al[0]))
+				h.drain(emit)
+			}
+			if len(h.aliveNames()) == 0 && len(h.enabledKeys()) == 0 {
+				emit("end quiescent")
+			} else {
+				emit("end limit")
+			}
+		}
+	}
+}
+
 // directedManual: start / stop / restart requests on a running, a finished and an unknown process,
 // for a plain process and for a replica of a replicated one (name differs from the replica name).
 func (h *supH) directedManual(emit func(string)) {
@@ -1266,6 +1310,7 @@ func (h *supH) Gen(r *rand.Rand, tier string, emit func(string)) {
 	h.directedRestartSlowStopper(emit)
 	h.directedRestartedDependency(emit)
 	h.directedLateLookup(emit)
+	h.directedReplicatedDependent(emit)
 	h.directedExit(emit)
 	h.directedStopThenShutdown(emit)
 	scen, maxProcs, maxSteps := 120, 4, 120
